@@ -78,16 +78,21 @@ CHECKS["C03"] = dict(
     design="§6 C03")
 
 CHECKS["C02"] = dict(
-    technique="Coq proofs of the invariances (children swap, name-keyed sequence lookup under any permutation, column permutation/merging, tip states vs partials, one-step pulley principle for any state count) on the C01 model + pairs of equivalent JSON specifications on the implementation and against the model",
+    technique="Coq proofs of the invariances (children swap, name-keyed sequence lookup under any permutation, column permutation/merging, tip states vs partials, and re-rooting: every root placement reachable by any number of root moves, for any state count and any reversible semigroup family) on the C01 model + pairs of equivalent JSON specifications on the implementation and against the model",
     text="Theorems C02_swap_children / C02_perm_sequences / C02_perm_columns / C02_merge_columns / "
-         "C02_states_vs_partials(_missing) and the pulley identity C02_reroot_one_step_partial (prop/C02.v) for all "
-         "trees, alignments, state counts and reversible semigroup families. The induction from the one-step pulley "
-         "identity to every root placement, and invariance under permutation of the taxa list (leaf indices and the "
-         "vectors indexed by them move together), are not formalised: they are decided by pairs of equivalent "
-         "specifications (data keyed by taxon name / clade / bipartition, realised twice) on the implementation "
-         "(|A-B| <= 1e-9 rel) with every specification also checked against the interval run of the C01 model.",
-    note="Trusted: as C01, plus the generator of equivalent specifications; reroot_any_branch and perm_taxa are partial "
-         "(see text).",
+         "C02_states_vs_partials(_missing), the pulley identity C02_reroot_one_step and C02_reroot_any_branch / "
+         "C02_reroot_along_any_path (prop/C02.v): for every tree carrying its tip vectors and branch lengths, every state "
+         "count and every family P(t) of S x S matrices with detailed balance and P(a+b) = P(a)P(b), all rootings related by "
+         "any number of moves of the root (exchange the root children, slide along the root edge, cross the node below onto "
+         "either grandchild branch) have the same site likelihood. Invariance under permutation of the taxa list (leaf "
+         "indices and the vectors indexed by them move together) is not formalised: it is decided by pairs of equivalent "
+         "specifications (data keyed by taxon name / clade / bipartition, realised twice: permuted taxa, permuted sequences, "
+         "swapped children, permuted / merged columns, tip states vs partials, root moved to a random branch, the same "
+         "unrooted tree with its lengths written in the newick string with the root edge split anywhere or a trifurcating "
+         "root) on the implementation (|A-B| <= 1e-9 rel) with every specification also checked against the interval run of "
+         "the C01 model.",
+    note="Trusted: as C01, plus the generator of equivalent specifications; that the three root moves generate ALL rootings of "
+         "an unrooted tree is a graph-theoretic fact argued in the comment, not formalised; perm_taxa is decided by pairs only.",
     design="§6 C02")
 
 CHECKS["C07"] = dict(
